@@ -40,6 +40,25 @@ int main(int argc, char** argv) {
         }
         return bad ? 1 : 0;
     }
+    if (r.str("unit") == "dns.encode_name_wire_form") {
+        // the witness name (W_s, W_n) in a query and an answer: the message must serialize to something libtins parses back to the same records
+        size_t n = (size_t)r.num("W_n", 12);
+        std::vector<uint8_t> b = r.bytes("W_s", n, 'a');
+        std::string name(b.begin(), b.end());
+        for (size_t i = 0; i < name.size(); ++i) if ((unsigned char)name[i] < 0x21 || (unsigned char)name[i] > 0x7e) name[i] = 'x';
+        if (!r.has("W_s[0l]") && !r.has("W_s[0]")) name = "example.com.";
+        DNS d; d.add_query(DNS::query(name, DNS::A, DNS::INTERNET)); d.add_answer(DNS::resource(name, "1.2.3.4", DNS::A, DNS::INTERNET, 60));
+        std::vector<uint8_t> y = d.serialize();
+        std::string want = name; if (!want.empty() && want[want.size() - 1] == '.') want.erase(want.size() - 1);
+        try {
+            DNS q(y.data(), (uint32_t)y.size());
+            DNS::queries_type qs = q.queries(); DNS::resources_type as = q.answers();
+            if (qs.size() != 1 || as.size() != 1) { printf("DEFECT: \"%s\": %zu queries, %zu answers read back\n", name.c_str(), qs.size(), as.size()); return 1; }
+            printf("\"%s\": query \"%s\" type %d, answer \"%s\" -> %s\n", name.c_str(), qs.front().dname().c_str(), (int)qs.front().query_type(), as.front().dname().c_str(), as.front().data().c_str());
+            if (qs.front().dname() != want || qs.front().query_type() != DNS::A || as.front().dname() != want || as.front().data() != "1.2.3.4") { printf("DEFECT: the records do not come back as inserted\n"); return 1; }
+        } catch (const exception_base& e) { printf("DEFECT: \"%s\": the serialization of the API-built message does not parse: %s\n", name.c_str(), e.what()); return 1; }
+        return 0;
+    }
     if (r.str("unit") == "dns.update_records_bounds") {
         // the witness record area (W_b0.., as many octets as the witness names, at most 18) as the authority section of a message
         // with no question: DNS::DNS accepts it (same validator as the unit), then add_answer walks it. Run under ASan.
